@@ -32,6 +32,7 @@ import (
 const NKeys = 10 // plain ed25519 keys 0..9; Keys[10], Keys[11] are multisignature keys built from them
 const NAll = 12
 const Denom = "upokt"
+const Denom2 = "voucher" // a second denomination some genesis accounts hold; it can only move as (part of) a fee
 
 type Key struct {
 	Priv crypto.PrivateKey
@@ -249,6 +250,7 @@ func (f *Fam) doInit(w []string) string {
 	signing := map[string]posTypes.ValidatorSigningInfo{}
 	missedBlocks := map[string][]posTypes.MissedBlock{}
 	supply := sdk.ZeroInt()
+	supply2 := sdk.ZeroInt()
 	for i := 0; i < len(w); i++ {
 		switch w[i] {
 		case "si": // si <addr> <start> <offset> <missed> <jailedUntil ns | -1> <tombstoned>: exported signing info
@@ -280,6 +282,15 @@ func (f *Fam) doInit(w []string) string {
 			accs = append(accs, ba)
 			supply = supply.Add(bal)
 			i += 2
+		case "acc2": // coins of a second denomination on a genesis account (they can only be spent as fees)
+			for j := range accs {
+				if hx(accs[j].GetAddress()) == w[i+1] {
+					c := accs[j].GetCoins().Add(sdk.NewCoins(sdk.NewCoin(Denom2, mustInt(w[i+2]))))
+					accs[j].SetCoins(c)
+				}
+			}
+			supply2 = supply2.Add(mustInt(w[i+2]))
+			i += 2
 		case "val":
 			ki := keyByAddr[w[i+1]]
 			tok := mustInt(w[i+2])
@@ -295,8 +306,11 @@ func (f *Fam) doInit(w []string) string {
 	for _, n := range AllParamNames() {
 		acl.SetOwner(n, owner)
 	}
-	authGen := authTypes.GenesisState{Params: authTypes.DefaultParams(), Accounts: accs,
-		Supply: sdk.NewCoins(sdk.NewCoin(Denom, supply))}
+	genSupply := sdk.NewCoins(sdk.NewCoin(Denom, supply))
+	if supply2.IsPositive() {
+		genSupply = genSupply.Add(sdk.NewCoins(sdk.NewCoin(Denom2, supply2)))
+	}
+	authGen := authTypes.GenesisState{Params: authTypes.DefaultParams(), Accounts: accs, Supply: genSupply}
 	posGen := posTypes.DefaultGenesisState()
 	posGen.Validators = vals
 	posGen.SigningInfos, posGen.MissedBlocks = signing, missedBlocks
@@ -506,6 +520,9 @@ func (f *Fam) txBytes(t txSpec) ([]byte, sdk.Msg) {
 	if t.fee.IsPositive() {
 		fee = sdk.NewCoins(sdk.NewCoin(Denom, t.fee))
 	}
+	if f2, ok := t.f["fee2"]; ok && f2 != "" && f2 != "0" {
+		fee = fee.Add(sdk.NewCoins(sdk.NewCoin(Denom2, mustInt(f2))))
+	}
 	memo := strings.Repeat("m", t.memo)
 	chain := ChainID
 	if t.mut == "chain" { // signed for another chain
@@ -545,7 +562,11 @@ func (f *Fam) txBytes(t txSpec) ([]byte, sdk.Msg) {
 			sig = sig[:len(sig)-1]
 		}
 	case "fee":
+		extra := fee.AmountOf(Denom2)
 		fee = sdk.NewCoins(sdk.NewCoin(Denom, t.fee.AddRaw(1)))
+		if extra.IsPositive() {
+			fee = fee.Add(sdk.NewCoins(sdk.NewCoin(Denom2, extra)))
+		}
 	case "memo":
 		memo += "x"
 	case "memosp": // only white space is added to the signed memo
@@ -647,7 +668,9 @@ func (f *Fam) doTx(w []string) (string, []byte, sdk.Msg, txSpec) {
 		}
 		return "err"
 	})
-	_ = log
+	if os.Getenv("VERIF_TXLOG") != "" && code != 0 {
+		fmt.Fprintf(os.Stderr, "txlog code=%d %s :: %s\n", code, strings.Join(w, " "), strings.ReplaceAll(log, "\n", " "))
+	}
 	f.blockRaw = append(f.blockRaw, bz)
 	if f.rep != nil && t.mode == "deliver" {
 		if f.dead {
